@@ -2,6 +2,7 @@
 
 Bounded-exhaustive enumeration: parameter type x constraint configuration x candidate value x assignment route,
 each decided against the independent predicate models/spec.py."""
+import abc
 import datetime as dt
 import decimal
 import fractions
@@ -24,6 +25,10 @@ class K:
 
 class KSub(K):
     pass
+
+
+class KMetaSub(K, metaclass=abc.ABCMeta):
+    """a genuine subclass of K whose own class is not `type` (abstract base classes, Parameterized classes, enums ... are like that)"""
 
 
 KI = K()
@@ -56,7 +61,8 @@ POOL = [
     ('(date2019,date1)', (dt.date(2019, 12, 31), D1_)), ('(date1,date2021)', (D1_, dt.date(2021, 1, 1))),
     ('len', len), ('lambda', _lam), ('genfunc', _gen), ('class K', K), ('class KSub', KSub), ('K()', KI), ('int', int),
     ("'#fff'", '#fff'), ("'#ffff'", '#ffff'), ("'fff'", 'fff'), ("'#ffffff'", '#ffffff'), ("'red'", 'red'), ("'RED'", 'RED'), ("'notacolor'", 'notacolor'),
-    ("'#ggg'", '#ggg'),
+    ("'#ggg'", '#ggg'), ("'#fff\\n'", '#fff\n'), ("'ffffff\\n'", 'ffffff\n'), ("'red\\n'", 'red\n'),
+    ('[None]', [None]), ('[None,1]', [None, 1]), ('[KMetaSub]', [KMetaSub]), ('class KMetaSub', KMetaSub),
 ]
 
 SEL_OBJECTS = ['a', 1, (1, 2), 0.5]
